@@ -1,7 +1,9 @@
 import Tickit.Proof.WinInput
 import Tickit.Proof.WinInputSafe
 import Tickit.Proof.WinInputDeliver
+import Tickit.Proof.WinInputBind
 import Tickit.Gen.WinInputCfg
+import Tickit.Gen.InputXlate
 /-
   C14 — Input reaches the front-most eligible window first, in its own coordinates.
 
@@ -1057,5 +1059,198 @@ example : ∃ st, focusInsideA = some st ∧ Unaffected (fun x => x == 2 || x ==
     rw [hb] at h
     simp only [Option.map_some, Option.some.injEq] at h
     exact ⟨st, rfl, unaffectedCheck_sound h⟩
+
+/-! ### handlers that leave the list they are run from: one-shot and self-unbinding handlers
+
+  A binding made with `TICKIT_BIND_ONESHOT`, or a handler that unbinds its own binding while it runs, turns into a
+  tombstone of the list that `run_events_whilefalse` is walking.  What the handler does besides — close, hide, restack,
+  hand the focus over, which makes the window emit FOCUS events from inside the walk, on the same list — must not
+  derail the rest of the walk. -/
+
+/-- **own handlers under mutation** (the clause "then to the window's own handlers … stopping at the first handler
+    that claims it", for every tree mutation performed from inside handlers).  Whatever the handlers of a window do
+    (`runHandlers` returned at all), the calls made by one offer are exactly: every handler that is still bound, in
+    binding order, up to and including the first whose table says "claim" (`untilClaim (liveOf …)`) — handlers that
+    are gone (fired one-shot, unbound themselves) are passed over, nobody is skipped because an earlier handler
+    mutated the tree or left the list; and the bindings afterwards and the claim are those of the pure reference
+    `offerOne` (the one `key_order` / `mouse_target` are stated with). -/
+theorem own_handlers_under_mutation (st st' : St) (kind : Kind) (win : WinTree.Id) (ev : Ev) (c : Bool)
+    (h : runHandlers st kind win ev = Res.ok (st', c)) :
+    callsOf st'.log = callsOf st.log ++ untilClaim kind win ev (liveOf st.binds (bindingsOf st.binds kind win)) ∧
+    (st'.binds, c) = offerOne st.binds kind win := by
+  unfold runHandlers at h
+  obtain ⟨h1, h2⟩ := runBindings_calls kind win ev _ _ _ _ h
+  rw [callsOf_say_offer] at h1
+  refine ⟨?_, h2⟩
+  rw [h1]
+  exact congrArg _ (walkCalls_eq kind win ev _ _ (bindingsOf_nodup _ _ _))
+
+/-- …in particular, when no bound handler claims, every one of them is called, in order. -/
+theorem own_handlers_all_when_declined (kind : Kind) (win : WinTree.Id) (ev : Ev) :
+    ∀ (l : List Binding), (∀ b ∈ l, b.entry.ret = false) →
+      untilClaim kind win ev l = l.map fun b => LogItem.call kind win b.idx (entryIndex b) false ev := by
+  intro l
+  induction l with
+  | nil => intro _; rfl
+  | cons b rest ih =>
+    intro hd
+    have hb := hd b (List.mem_cons_self ..)
+    simp only [untilClaim, List.map_cons, hb, Bool.false_eq_true, if_false]
+    rw [ih (fun x hx => hd x (List.mem_cons_of_mem _ hx))]
+
+/-- A binding that is gone is never invoked again: a whole key or mouse event leaves it exactly as it was. -/
+theorem gone_handler_never_invoked (cfg : Cfg) (st st' : St) (ev : Ev)
+    (h : emitKey cfg st ev = Out.ok st' ∨ emitMouse cfg st ev = Out.ok st')
+    (i : Nat) (x : Binding) (hx : st.binds[i]? = some x) (hg : x.gone = true) : st'.binds[i]? = some x := by
+  obtain ⟨x', hx', s⟩ := (emit_bmono h).2 i x hx
+  rw [hx', s.gone hg]
+
+/-- **A one-shot handler runs at most once**, in every history: in every state the engine can reach, a one-shot
+    binding has either never been invoked and is bound, or has been invoked exactly once and is gone. -/
+theorem oneshot_at_most_once {st : St} (h : Reachable st) : OneShotInv st.binds := by
+  induction h with
+  | fresh l c => intro i x hx; simp [newSt] at hx
+  | @win st st' id p r a b c d _ hn ih =>
+    unfold newWin at hn
+    obtain ⟨⟨t, id'⟩, _, hn⟩ := res_bind_eq_ok.1 hn
+    simp only [res_pure, Res.ok.injEq, Prod.mk.injEq] at hn
+    obtain ⟨rfl, _⟩ := hn
+    exact ih
+  | bind w k es os _ ih => exact ih.push _ rfl rfl
+  | act a _ ha ih => rw [doAction_binds ha]; exact ih
+  | flush _ hf ih =>
+    unfold flushSt at hf
+    obtain ⟨t, _, hf⟩ := res_bind_eq_ok.1 hf
+    simp only [res_pure, Res.ok.injEq] at hf
+    subst hf; exact ih
+  | key ev _ hk ih => exact ih.mono (emit_bmono (Or.inl hk))
+  | mouse ev _ hm ih => exact ih.mono (emit_bmono (Or.inr hm))
+
+namespace Scenario
+
+/-- The dialog of the reviewers' demonstration: window 1 is unrelated, 2 is a dialog that holds the focus, 3 its entry
+    field.  The dialog's first key handler is a one-shot hook that hands the focus to the entry field (the dialog is
+    told it lost the focus while its key handlers are being walked) and declines; its second handler claims. -/
+def dialog : Option St :=
+  build [opWin 0 ⟨0, 0, 2, 8⟩, opWin 0 ⟨2, 1, 3, 6⟩, opWin 2 ⟨1, 1, 1, 4⟩,
+         opBind 1 .key [claim],
+         opBind 2 .key [doing false .focus 3] true, opBind 2 .key [claim],
+         opBind 3 .key [decl],
+         opAct .focus 2] (newSt 6 8)
+
+/-- The handler calls (window, handler index, claimed) of an event, oldest first. -/
+def called (o : Option (Out St)) : Option (List (WinTree.Id × Nat × Bool)) :=
+  o.bind fun r => match r with
+    | .ok s => some ((callsOf s.log).filterMap fun i => match i with | .call _ w i _ r _ => some (w, i, r) | _ => none)
+    | _ => none
+
+end Scenario
+
+open Scenario in
+/-- Non-vacuity: first key — the hook fires (and moves the focus), then the dialog's second handler claims; second key —
+    the hook is gone: the entry field (innermost on the focus chain) declines, the dialog's remaining handler claims. -/
+example :
+    called (dialog.map fun s => emitKey Cfg.repaired s key) = some [(2, 0, false), (2, 1, true)] ∧
+    called (dialog.bind fun s => match emitKey Cfg.repaired s key with
+      | .ok s1 => some (emitKey Cfg.repaired { s1 with log := [] } key) | _ => none) = some [(3, 0, false), (2, 1, true)] := by
+  refine ⟨by decide +kernel, by decide +kernel⟩
+
+open Scenario in
+/-- …and the state after the first key is reachable, with the hook invoked once and gone. -/
+example : ∃ st, Reachable st ∧ ∃ x, st.binds[1]? = some x ∧ x.oneshot = true ∧ x.count = 1 ∧ x.gone = true := by
+  have hd : ∃ s, dialog = some s := by
+    cases h : dialog with
+    | none => exact absurd h (by decide +kernel)
+    | some s => exact ⟨s, rfl⟩
+  obtain ⟨s, hs⟩ := hd
+  have hr : Reachable s := by
+    apply build_reachable _ _ _ _ (Reachable.fresh 6 8) hs
+    intro f hf
+    simp only [List.mem_cons, List.not_mem_nil, or_false] at hf
+    rcases hf with rfl | rfl | rfl | rfl | rfl | rfl | rfl | rfl
+    · exact stepR_win _ _ _
+    · exact stepR_win _ _ _
+    · exact stepR_win _ _ _
+    · exact stepR_bind _ _ _
+    · exact stepR_bind _ _ _ true
+    · exact stepR_bind _ _ _
+    · exact stepR_bind _ _ _
+    · exact stepR_act _ _
+  have hk : (dialog.map fun s => match emitKey Cfg.repaired s key with
+      | .ok s1 => (s1.binds[1]?.map fun x => (x.oneshot, x.count, x.gone)) == some (true, 1, true)
+      | _ => false) = some true := by decide +kernel
+  rw [hs] at hk
+  simp only [Option.map_some, Option.some.injEq] at hk
+  cases he : emitKey Cfg.repaired s key with
+  | ok s1 =>
+    rw [he] at hk
+    dsimp only at hk
+    refine ⟨s1, Reachable.key key hr he, ?_⟩
+    cases hx : s1.binds[1]? with
+    | none => rw [hx] at hk; simp at hk
+    | some x =>
+      rw [hx] at hk
+      simp only [Option.map_some, beq_iff_eq, Option.some.injEq, Prod.mk.injEq] at hk
+      exact ⟨x, rfl, hk.1, hk.2.1, hk.2.2⟩
+  | ub w => rw [he] at hk; simp at hk
+  | fuel => rw [he] at hk; simp at hk
+
+/-! ### mouse input that arrives as X10 bytes: the button of a button-less release
+
+  `ESC [ M …` reports go through libtermkey (modelled: `x10Key`), `got_key` of src/term.c (`InputXlate.gotKey`, the
+  C20 model) and `on_term_mouse`.  An X10 release does not say which button was released: the terminal names the
+  buttons it recorded as held.  For the drag clause that record has to be right: exactly the buttons pressed or
+  dragged and not released since — a wheel report (a libtermkey "press" of button 4 / 5) is not one of them. -/
+
+open InputXlate in
+/-- Every X10 report, in every state of the held record that satisfies the mask invariant (`MaskInv`, kept by every
+    report): `got_key` returns (no undefined shift, the release loop terminates), keeps the invariant, its record
+    holds exactly the specification's set of held buttons, and — with the `default:` arm repaired, or for a report of
+    a known kind — it emits exactly the specification's events. -/
+theorem x10_report_events (xcfg : InputXlate.Cfg) (hcb : xcfg.onModereport = true ∧ xcfg.onDecrqss = true)
+    (held : Nat) (hinv : MaskInv held) (code line col : Nat) :
+    ∃ held' evs, gotKey xcfg x10Fuel held (x10Key code line col) = .ok (held', evs) ∧ MaskInv held' ∧
+      heldButtons held' = (Spec.keyEvents (heldButtons held) (x10Key code line col)).1 ∧
+      ((xcfg.dropUnknownMouse = true ∨ (x10Key code line col).KnownKind) →
+        evs = (Spec.keyEvents (heldButtons held) (x10Key code line col)).2) :=
+  gotKey_refines xcfg x10Fuel (by decide) held hinv _ (x10Key_wf code line col) hcb
+
+open InputXlate in
+/-- **A wheel report does not mark a button as held**: the record is unchanged, and exactly one WHEEL event (up = 1,
+    down = 2) is emitted, at the reported cell. -/
+theorem x10_wheel_keeps_held (xcfg : InputXlate.Cfg) (held code line col : Nat)
+    (hw : code &&& 0xc3 = 64 ∨ code &&& 0xc3 = 65) (hm : code &&& 0x20 = 0) :
+    gotKey xcfg x10Fuel held (x10Key code line col) =
+      .ok (held, [Event.mouse MOUSEEV_WHEEL (x10Button code - 3) line col (x10Mods code)]) := by
+  have he : x10Event code = TERMKEY_MOUSE_PRESS := by
+    unfold x10Event
+    rcases hw with hw | hw <;> simp [hw, hm]
+  have hb : WHEEL_FIRST_BUTTON ≤ x10Button code := by
+    unfold x10Button WHEEL_FIRST_BUTTON
+    rcases hw with hw | hw <;> simp [hw]
+  unfold x10Key
+  rw [he, gotKey_mouse_wheel xcfg x10Fuel held _ _ _ _ hb]
+  simp
+
+open InputXlate in
+/-- **The button-less release is given the button that is held**: with exactly button `b` held, an X10 release is
+    reported as one RELEASE of button `b` at the reported cell, and nothing is held afterwards. -/
+theorem x10_release_names_held_button (xcfg : InputXlate.Cfg) (hcb : xcfg.onModereport = true ∧ xcfg.onDecrqss = true)
+    (held : Nat) (hinv : MaskInv held) (b : Nat) (hb : heldButtons held = [b]) (code line col : Nat)
+    (hr : code &&& 0xc3 = 3) :
+    ∃ held', gotKey xcfg x10Fuel held (x10Key code line col) =
+      .ok (held', [Event.mouse MOUSEEV_RELEASE b line col (x10Mods code)]) ∧ heldButtons held' = [] := by
+  obtain ⟨held', evs, hg, _, hh, he⟩ := x10_report_events xcfg hcb held hinv code line col
+  have hev : x10Event code = TERMKEY_MOUSE_RELEASE := by unfold x10Event; simp [hr]
+  have hbt : x10Button code = 0 := by unfold x10Button; simp [hr]
+  have hk : x10Key code line col = .mouse TERMKEY_MOUSE_RELEASE 0 ((line : Int) + 1) ((col : Int) + 1) (x10Mods code) := by
+    unfold x10Key; rw [hev, hbt]
+  rw [hk] at hh he hg
+  have hspec : Spec.keyEvents [b] (.mouse TERMKEY_MOUSE_RELEASE 0 ((line : Int) + 1) ((col : Int) + 1) (x10Mods code)) =
+      ([], [Event.mouse MOUSEEV_RELEASE b line col (x10Mods code)]) := by
+    simp [Spec.keyEvents, TERMKEY_MOUSE_RELEASE, TERMKEY_MOUSE_PRESS, TERMKEY_MOUSE_DRAG]
+  rw [hb, hspec] at hh he
+  refine ⟨held', ?_, hh⟩
+  rw [hk, hg, he (Or.inr (by simp [Key.KnownKind, TERMKEY_MOUSE_RELEASE, TERMKEY_MOUSE_PRESS, TERMKEY_MOUSE_DRAG]))]
 
 end Tickit.Props.C14
